@@ -134,6 +134,7 @@ def fixPart3 (ss : List Stmt) (i : Nat) (s2 : Stmt) : Outcome Stmt :=
     match fixRelTarget ss s2, addrIntOf ss i with
     | .ok r, some start =>
       let jump : Int := (r : Int) - start - s2.pkg.size
+      let jump : Int := (jump + 0x8000) % 0x10000 - 0x8000
       let jump : Int := if s2.pcrHint = 4 then jump % 0x10000 else jump
       (match numericOfInt jump (some s2.pcrHint) .none with
        | .ok v => .ok { s2 with pkg := { s2.pkg with additional := v } }
